@@ -33,3 +33,7 @@ add("C13", "model_checking", "exhaustive enumeration of resize/write sequences u
     "Per scenario (rank 1-2, thorough also 3; chunk shapes; fixed/unlimited/mixed maximum): every sequence up to depth 4 (rank 1) / 3 (rank 2) — thorough one deeper — over {Resize(d) for every d in a box that includes shapes beyond a fixed maximum, Write(pattern 1|2)} on the real DatasetWriter; after each sequence the reopened shape and Read are compared with a dense N-d array model (resize keeps the intersection and zero-fills, write replaces), accepted/rejected resize calls are compared with the declared maximum, and a neighbour dataset must be unchanged.",
     "Trusted: the model of the statement. Bound: depth 3-5, extents <= 5, the API's only write (full extent).",
     "DESIGN.md §5 C13", "E1-sequences")
+add("C09", "exploration", "exhaustive enumeration of hyperslab selections per small dataset, differential against the full read",
+    "For 25 library-written datasets (rank 1-4, contiguous / chunked with partial edge chunks / shrunk by Resize, 6 element types): every (start,count,stride,block) per dimension with start in [0,d], count in [1,d+1], stride in {1,2,3,d}, block in {1,2} (reduced at rank>=3) — all valid selections and all that leave the bounds by one; plus a boundary grid of valid selections on every dataset of the bundled reference corpus that Read() supports and that has <= 256 (thorough 4096) elements (compact layout, big-endian, C-library chunk indexes, filters). ReadHyperslab/ReadSlice must equal the gather from Read() of the same open file; out-of-bounds selections must be rejected; the chunk iterator must visit each chunk once and tile the full read.",
+    "Differential: if Read() itself is wrong (C01) this check fires only when the partial path disagrees with it. Bound: dataset extents <= 7 per dimension for the complete selection space.",
+    "DESIGN.md §5 C09", "E4-grid-files")
